@@ -116,6 +116,15 @@ Fixpoint first_els (l : list elem) : list pat :=
   | e :: r => first_el e ++ (if nullable_el e then first_els r else [])
   end.
 
+(* a Sequence whose first element is required and context tagged (and not a list) refuses a tag that is
+   not its own with InvalidTag — the error Sequence.decode's try / roll-back of an un-contexted optional
+   structure catches *)
+Definition clean_reject (t : ty) : bool :=
+  match t with
+  | TSeq (El t' (Some _) false :: _) => negb (is_list t')
+  | _ => false
+  end.
+
 (* AVOID: patterns of tags that, placed right after the encoding of a value of this type, would be
    swallowed by its decoder (trailing optional elements, list loops, Any). *)
 Fixpoint avoid (t : ty) : list pat :=
@@ -132,8 +141,14 @@ Fixpoint avoid (t : ty) : list pat :=
   end
 with avoid_el (e : elem) : list pat :=
   match e with
-  | El t (Some c) o => if o then (if is_atomic t then [PCtx c] else [POpen c]) else []
-  | El t None o => (if o then first t else []) ++ avoid t
+  | El t (Some c) o =>
+      if o then (if is_list t then [PAny]            (* absent optional list: [] unless at the end *)
+                 else if is_atomic t then [PCtx c] else [POpen c])
+      else []
+  | El t None o =>
+      (if o then (if is_atomic t || clean_reject t then first t
+                  else [PAny])                       (* try / roll-back only catches InvalidTag / DecodingError *)
+       else []) ++ avoid t
   end.
 
 Fixpoint avoid_els (l : list elem) : list pat :=
@@ -177,10 +192,10 @@ Fixpoint supported (t : ty) : bool :=
   | TAtom k => k <=? 12
   | TAnyAtomic | TAny | TSeqOfAny => true
   | TSeq els => forallb sup_seq_el els
-  | TChoice els => forallb sup_alt els
+  | TChoice els => forallb sup_alt_loose els
   | TSeqOf s => supported s && negb (is_list s)
-  | TArrayOf _ _ => false
-  | TNameValue => false
+  | TArrayOf s _ => supported s && negb (is_list s)
+  | TNameValue => true
   end
 with sup_seq_el (e : elem) : bool :=
   match e with
@@ -191,14 +206,24 @@ with sup_seq_el (e : elem) : bool :=
       (match c with None => o || negb (nullable t) || is_list t | Some _ => true end) &&
       match t, c, o with
       | TAnyAtomic, Some _, _ => false                (* never decodable *)
-      | (TSeqOf _), _, true => false                  (* absent optional list decodes to [] or None *)
-      | (TSeq _ | TChoice _ | TAny | TSeqOfAny | TNameValue | TArrayOf _ _), None, true => false
-                                                      (* un-contexted optional structure: try / roll back *)
-      | TArrayOf _ _, _, _ => false
+      | TSeqOf _, None, true => false                 (* absent and empty have the same encoding *)
+      | (TAny | TSeqOfAny), None, true => false       (* idem *)
+      | (TSeq _ | TChoice _ | TNameValue), None, true => negb (nullable t)
+                                                      (* un-contexted optional structure: try / roll-back *)
+      | TArrayOf _ _, _, _ => false                   (* ArrayOf elements are not table-driven *)
       | _, _, _ => true
       end
   end
-with sup_alt (e : elem) : bool :=
+(* any alternative, including a constructed one without context (reaching it raises NotImplementedError:
+   finding C03-K1); a value may only choose an alternative with sup_alt itself and all before it *)
+with sup_alt_loose (e : elem) : bool :=
+  match e with
+  | El t c o =>
+      supported t && match t with TAnyAtomic | TArrayOf _ _ => false | _ => true end
+  end.
+
+(* an alternative Choice.decode can select or skip *)
+Definition sup_alt (e : elem) : bool :=
   match e with
   | El t c o =>
       supported t &&
